@@ -893,3 +893,204 @@ def _panel_forces(rng, nx, ny, sym):
                 inputs=OrderedDict(rho=np.array([rng.uniform(0.3, 1.2)]), horseshoe_circulations=rng.normal(size=N) * 10,
                                    force_pts_velocities=rng.normal(size=(N, 3)) * 50, bound_vecs=rng.normal(size=(N, 3))),
                 outputs=["panel_forces"])
+
+
+# ---------------------------------------------------------------------------------------
+# wingbox section / geometry, radii, and the index-bookkeeping ("glue") components
+# ---------------------------------------------------------------------------------------
+def _airfoil(rng):
+    """random wingbox cross-section data: x increasing between the spars, upper above lower, not symmetric"""
+    npt = int(rng.integers(3, 9))
+    x = np.sort(rng.uniform(0.1, 0.65, size=npt)); x[0] = rng.uniform(0.08, 0.15); x[-1] = rng.uniform(0.55, 0.7)
+    x = np.sort(x) + np.arange(npt) * 1e-3        # strictly increasing
+    xi = (x - x[0]) / (x[-1] - x[0])
+    yu = rng.uniform(0.035, 0.06) + rng.uniform(0.005, 0.03) * 4 * xi * (1 - xi) + rng.uniform(-0.004, 0.004, size=npt)
+    yl = -(rng.uniform(0.03, 0.055) + rng.uniform(0.0, 0.02) * 4 * xi * (1 - xi)) + rng.uniform(-0.004, 0.004, size=npt)
+    return dict(data_x_upper=x, data_x_lower=x.copy(), data_y_upper=yu, data_y_lower=yl,
+                original_wingbox_airfoil_t_over_c=float(rng.uniform(0.1, 0.14)))
+
+
+def _af_consts(wb):
+    return list(wb["data_x_upper"]) + list(wb["data_y_upper"]) + list(wb["data_x_lower"]) + list(wb["data_y_lower"])
+
+
+@spec("SectionPropertiesWingbox")
+def _section_properties_wingbox(rng, nx, ny, sym):
+    from openaerostruct.structures.section_properties_wingbox import SectionPropertiesWingbox
+    s = _surf(rng, nx, ny, sym, fem="wingbox"); wb = _airfoil(rng); s.update(wb)
+    ne = ny - 1
+    sc = rng.uniform(1.0, 6.0, size=ne)
+    inp = OrderedDict(streamwise_chords=sc, fem_chords=sc * rng.uniform(0.75, 1.0, size=ne),
+                      fem_twists=rng.choice([0.0, 1.0]) * rng.uniform(-0.12, 0.12, size=ne),
+                      spar_thickness=rng.uniform(3e-3, 2e-2, size=ne), skin_thickness=rng.uniform(3e-3, 2e-2, size=ne),
+                      t_over_c=rng.uniform(0.08, 0.16, size=ne))
+    return dict(factory=lambda: SectionPropertiesWingbox(surface=s), ints=[ny, len(wb["data_x_upper"])],
+                consts=[wb["original_wingbox_airfoil_t_over_c"]] + _af_consts(wb), inputs=inp,
+                outputs=["A", "A_enc", "A_int", "Iy", "Qz", "Iz", "J", "htop", "hbottom", "hfront", "hrear"], jtol=1e-6)
+
+
+@spec("WingboxGeometry", jac=False)
+def _wingbox_geometry(rng, nx, ny, sym):
+    from openaerostruct.structures.wingbox_geometry import WingboxGeometry
+    s = _surf(rng, nx, ny, sym, fem="wingbox"); wb = _airfoil(rng); s.update(wb)
+    return dict(factory=lambda: WingboxGeometry(surface=s), ints=[nx, ny, len(wb["data_x_upper"])], consts=_af_consts(wb),
+                inputs=OrderedDict(mesh=s["mesh"]), outputs=["streamwise_chords", "fem_chords", "fem_twists"])
+
+
+@spec("RadiusComp")
+def _radius_comp(rng, nx, ny, sym):
+    from openaerostruct.geometry.radius_comp import RadiusComp
+    s = _surf(rng, nx, ny, sym)
+    return dict(factory=lambda: RadiusComp(surface=s), ints=[nx, ny], consts=[],
+                inputs=OrderedDict(mesh=s["mesh"], t_over_c=rng.uniform(0.06, 0.2, size=ny - 1)), outputs=["radius"])
+
+
+@spec("SparWithinWing")
+def _spar_within_wing(rng, nx, ny, sym):
+    from openaerostruct.structures.spar_within_wing import SparWithinWing
+    s = _surf(rng, nx, ny, sym)
+    # `t_over_c` has no declared partials in the component (a constraint on radius and mesh): compared w.r.t. mesh and radius
+    toc = rng.uniform(0.06, 0.2, size=ny - 1)
+    return dict(factory=lambda: SparWithinWing(surface=s), ints=[nx, ny], consts=[],
+                inputs=OrderedDict(mesh=s["mesh"], radius=rng.uniform(0.02, 0.4, size=ny - 1)), post_consts=toc,
+                extra_inputs=dict(t_over_c=toc), outputs=["spar_within_wing"])
+
+
+@spec("WingboxFuelVol")
+def _wingbox_fuel_vol(rng, nx, ny, sym):
+    from openaerostruct.structures.fuel_vol import WingboxFuelVol
+    s = _surf(rng, nx, ny, sym, fem="wingbox")
+    return dict(factory=lambda: WingboxFuelVol(surface=s), ints=[ny], consts=[],
+                inputs=OrderedDict(nodes=_nodes(rng, s), A_int=rng.uniform(0.05, 0.8, size=ny - 1)), outputs=["fuel_vols"])
+
+
+@spec("Disp")
+def _disp_comp(rng, nx, ny, sym):
+    from openaerostruct.structures.disp import Disp
+    s = _surf(rng, nx, ny, sym)
+    return dict(factory=lambda: Disp(surface=s), ints=[ny], consts=[],
+                inputs=OrderedDict(disp_aug=rng.normal(size=6 * (ny + 1))), outputs=["disp"])
+
+
+@spec("Monotonic")
+def _monotonic(rng, nx, ny, sym):
+    from openaerostruct.geometry.monotonic_constraint import MonotonicConstraint
+    s = _surf(rng, nx, ny, sym)
+    return dict(factory=lambda: MonotonicConstraint(var_name="chord", surface=s), ints=[ny, int(sym)], consts=[],
+                inputs=OrderedDict(chord=rng.uniform(0.5, 3.0, size=ny)), outputs=["monotonic_chord"])
+
+
+@spec("MultiCD", sym_opts=(False,))
+def _multi_cd(rng, nx, ny, sym):
+    from openaerostruct.integration.multipoint_comps import MultiCD
+    n = nx + ny - 2
+    inp = OrderedDict(("%d_CD" % i, np.array([rng.uniform(0.005, 0.08)])) for i in range(n))
+    return dict(factory=lambda: MultiCD(n_points=n), ints=[n], consts=[], inputs=inp, outputs=["CD"])
+
+
+def _glue_surfs(rng, nx, ny, sym, ns=None):
+    ss = _vlm_surfs(rng, nx, ny, sym, ns=ns if ns is not None else int(rng.integers(1, 4)))
+    ints = [len(ss)]
+    for s in ss:
+        ints += [s["mesh"].shape[0], s["mesh"].shape[1]]
+    nums = [(s["mesh"].shape[0] - 1) * (s["mesh"].shape[1] - 1) for s in ss]
+    return ss, ints, nums
+
+
+@spec("PanelForcesSurf")
+def _panel_forces_surf(rng, nx, ny, sym):
+    from openaerostruct.aerodynamics.panel_forces_surf import PanelForcesSurf
+    ss, ints, nums = _glue_surfs(rng, nx, ny, sym)
+    return dict(factory=lambda: PanelForcesSurf(surfaces=ss), ints=ints, consts=[],
+                inputs=OrderedDict(panel_forces=rng.normal(size=(sum(nums), 3)) * 1e3),
+                outputs=[s["name"] + "_sec_forces" for s in ss])
+
+
+@spec("EvalVelocities")
+def _eval_velocities(rng, nx, ny, sym):
+    from openaerostruct.aerodynamics.eval_velocities import EvalVelocities
+    ss, ints, nums = _glue_surfs(rng, nx, ny, sym)
+    N = sum(nums)
+    # the component is instantiated with num_eval_points = system size (force points), as in VLMStates
+    inp = OrderedDict(freestream_velocities=rng.normal(size=(N, 3)) * 30, circulations=rng.normal(size=N) * 5)
+    for s, num in zip(ss, nums):
+        m = s["mesh"]
+        inp["%s_force_pts_vel_mtx" % s["name"]] = rng.normal(size=(N, m.shape[0] - 1, m.shape[1] - 1, 3))
+    return dict(factory=lambda: EvalVelocities(surfaces=ss, eval_name="force_pts", num_eval_points=N), ints=[N] + ints, consts=[],
+                inputs=inp, outputs=["force_pts_velocities"])
+
+
+@spec("MtxRhs")
+def _mtx_rhs(rng, nx, ny, sym):
+    from openaerostruct.aerodynamics.mtx_rhs import VLMMtxRHSComp
+    ss, ints, nums = _glue_surfs(rng, nx, ny, sym)
+    N = sum(nums)
+    inp = OrderedDict(freestream_velocities=rng.normal(size=(N, 3)) * 30)
+    for s, num in zip(ss, nums):
+        m = s["mesh"]
+        inp["%s_coll_pts_vel_mtx" % s["name"]] = rng.normal(size=(N, m.shape[0] - 1, m.shape[1] - 1, 3))
+        inp["%s_normals" % s["name"]] = rng.normal(size=(m.shape[0] - 1, m.shape[1] - 1, 3))
+    return dict(factory=lambda: VLMMtxRHSComp(surfaces=ss), ints=ints, consts=[], inputs=inp, outputs=["mtx", "rhs"])
+
+
+@spec("GetVectors")
+def _get_vectors(rng, nx, ny, sym):
+    from openaerostruct.aerodynamics.get_vectors import GetVectors
+    ground = bool(sym and rng.uniform() < 0.4)
+    ss = _vlm_surfs(rng, nx, ny, sym, ns=1, ground=ground)
+    s = ss[0]; m = s["mesh"]
+    npts = int(rng.integers(1, 5))
+    nxv = (2 if ground else 1) * m.shape[0]; nyv = 2 * m.shape[1] - 1 if sym else m.shape[1]
+    return dict(factory=lambda: GetVectors(surfaces=ss, num_eval_points=npts, eval_name="coll_pts"), ints=[npts, nxv, nyv], consts=[],
+                inputs=OrderedDict([("coll_pts", rng.normal(size=(npts, 3)) * 3), (s["name"] + "_vortex_mesh", rng.normal(size=(nxv, nyv, 3)) * 3)]),
+                outputs=["%s_coll_pts_vectors" % s["name"]], branch="ground" if ground else "free")
+
+
+def _sections(rng, nx, ny, continuous):
+    """2-4 section meshes [nx, ny_k, 3], outboard first (section 0 = tip side, as in the multi-section examples)"""
+    ns = int(rng.integers(2, 5))
+    secs = []
+    y0 = -float(rng.uniform(6, 12))
+    for k in range(ns):
+        nyk = ny + int(rng.integers(0, 2))
+        span = float(rng.uniform(1.0, 3.0))
+        m = gen.rand_mesh(rng, nx, nyk, True, jitter=0.0, span=2 * span)
+        m[:, :, 1] += y0 - m[0, 0, 1]
+        if secs and continuous:
+            m += secs[-1][:, -1:, :][0:1] * 0      # keep shape; aligned below
+            m[:, 0, :] = secs[-1][:, -1, :]
+        elif secs:
+            m += rng.normal(size=3) * 0.2
+        y0 = m[0, -1, 1]
+        secs.append(np.ascontiguousarray(m))
+    return secs
+
+
+@spec("GeomMultiUnification", op="UnifyComp")
+def _geom_multi_unification(rng, nx, ny, sym):
+    from openaerostruct.geometry.geometry_unification import GeomMultiUnification
+    secs = _sections(rng, nx, ny, continuous=bool(rng.uniform() < 0.5))
+    shift = bool(rng.integers(2))
+    sd = [dict(name="sec%d" % k, mesh=m.copy(), symmetry=True) for k, m in enumerate(secs)]
+    inp = OrderedDict(("sec%d_def_mesh" % k, m + rng.normal(size=m.shape) * 0.01) for k, m in enumerate(secs))
+    return dict(factory=lambda: GeomMultiUnification(sections=sd, surface_name="wing", shift_uni_mesh=shift),
+                ints=[nx, int(shift), len(secs)] + [m.shape[1] for m in secs], consts=[], inputs=inp, outputs=["wing_uni_mesh"],
+                branch="shift" if shift else "noshift")
+
+
+@spec("GeomMultiJoin", op="MultiJoin")
+def _geom_multi_join(rng, nx, ny, sym):
+    from openaerostruct.geometry.geometry_multi_join import GeomMultiJoin
+    secs = _sections(rng, nx, ny, continuous=False)
+    ns = len(secs)
+    masks = []
+    for k in range(ns - 1):
+        mk = rng.integers(0, 2, size=3)
+        if not mk.any():
+            mk[int(rng.integers(3))] = 1
+        masks.append(np.array(mk, dtype=int))
+    sd = [dict(name="sec%d" % k, mesh=m.copy(), symmetry=True) for k, m in enumerate(secs)]
+    inp = OrderedDict(("sec%d_join_mesh" % k, m) for k, m in enumerate(secs))
+    return dict(factory=lambda: GeomMultiJoin(sections=sd, dim_constr=[m.copy() for m in masks]),
+                ints=[nx, ns] + [m.shape[1] for m in secs] + [int(x) for m in masks for x in m], consts=[], inputs=inp,
+                outputs=["section_separation"])
